@@ -12,6 +12,13 @@ def run(ctx):
                          "operations on either part with the sibling re-read, shrink_to_fit, drops in both orders; split_at / merge (both orders) / "
                          "split_first / split_last round trips; contents, capacities and byte addresses of all parts are compared with the model; "
                          "distinct_nontrivial counts distinct op lines replayed on the model")
+    ctx.partial += [
+        "proved: split_off (BumpBox<[T]>, FixedBumpVec, BumpVec via FixedBumpVec), split_at, split_first/last, split_at_spare, merge (inverse / "
+        "rejects wrong order), partition (exact as multisets, for every predicate incl. panics); buffers of the parts disjoint + tile the original",
+        "oracle only: into_flattened (count, order, capacity), zero-sized parts (by counts), independence of the parts after follow-up operations "
+        "(sibling re-read; the model-level argument is C01/C02 of the arena engine)",
+        "BumpString / FixedBumpString::split_off belong to the `strs` engine (C09)",
+    ]
     proved = prove(ctx, MODULES)
     run_coll(ctx, 1 if q else 2, 1, "split", oracle_props=["C16"])
     if not q:
